@@ -154,10 +154,10 @@ def run_seq(case):
     return held(tags, len(lens) >= 2 and sum(lens) > 0)
 
 
-def ids_fit(lens, dtype):
+def ids_fit(lens, dtype, off=0):
     """the unique cell ids of an array with these row lengths (and of its bystander) are exactly representable in the element type"""
     dt = np.dtype(dtype)
-    top = 1000 * len(lens) + (max(lens) if len(lens) else 0) + 500001
+    top = 1000 * len(lens) + (max(lens) if len(lens) else 0) + 500001 + off
     if dt.kind == "f":
         return top < 2 ** (np.finfo(dt).nmant + 1)
     if dt.kind in "iu":
@@ -215,6 +215,8 @@ def run(case):
     if kind == "RA" and any(len(r) == 0 for r in cells):
         tags.append("sel-has-empty-row")
     OFF = case.get("idoffset", 0) if dt in (np.dtype("int64"), np.dtype("uint64")) else 0       # cell ids far beyond 2**53: a detour of the untouched cells through doubles would show
+    if OFF and not ids_fit(lens, dt, OFF + BASE + sum(lens) + 10):
+        OFF = 2 ** 53 if ids_fit(lens, dt, 2 ** 53 + BASE + sum(lens) + 10) else 0          # (so many rows that the offset ids would leave the element type)
     if OFF:
         tags.append("ids:beyond-2**53")
     pyrows = gen.id_rows(lens, base=OFF)
@@ -387,6 +389,8 @@ def run_mask(case):
     m = np.array(case["mask"], dtype=bool)
     tags = ["mask:" + vk] + gen.empty_placement(lens)
     OFF = case.get("idoffset", 0) if dt in (np.dtype("int64"), np.dtype("uint64")) else 0
+    if OFF and not ids_fit(lens, dt, OFF + BASE + sum(lens) + 10):
+        OFF = 2 ** 53 if ids_fit(lens, dt, 2 ** 53 + BASE + sum(lens) + 10) else 0
     pyrows = gen.id_rows(lens, base=OFF)
     cells = [(i, j) for i in range(len(lens)) for j in range(lens[i])]
     hit = [c for c, b in zip(cells, m.tolist()) if b]
